@@ -1088,6 +1088,12 @@ func (r *Runner) strmAdd(res *strmResult, tag string) {
 		c.Direct = append(c.Direct, res.detail)
 	}
 	r.Add(c)
+	// ordered streaming without cancel and without RPC errors (none, or non-linking blocks only): the outcome is
+	// also the one of the map-level model of the ordering buffer
+	if c.Op == "stream.validate" && len(res.spec) == 9 && res.spec[0] == "o" && res.spec[7] == "-" && !res.crashed && res.detail == "" &&
+		(res.spec[6] == "-" || strmOnlyLinkFaults(res.spec[6])) && res.spec[2] != "1" {
+		r.Add(&Case{Op: "reorder.run", Args: append([]string{}, args...), Go: strmObservedOutcome(res.events), Mode: Full, NonTrivial: true, Tag: tag + " / ordering buffer"})
+	}
 }
 
 func strmOnlyLinkFaults(plan string) bool {
